@@ -45,12 +45,16 @@ func (c *clientWrapper) Call(ctx context.Context, req client.Request, rsp interf
 		slotChain := sentinel.BuildDefaultSlotChain()
 		slotChain.AddRuleCheckSlot(outlier.DefaultSlot)
 		slotChain.AddStatSlot(outlier.DefaultMetricStatSlot)
-		entry, _ := sentinel.Entry(
+		entry, blockErr := sentinel.Entry(
 			req.Service(),
 			sentinel.WithResourceType(base.ResTypeRPC),
 			sentinel.WithTrafficType(base.Outbound),
 			sentinel.WithSlotChain(slotChain),
 		)
+		if blockErr != nil {
+			// blocked by another rule of the chain: there is no entry to exit
+			return blockErr
+		}
 		defer entry.Exit()
 		opts = append(opts, WithSelectOption(entry))
 		opts = append(opts, WithCallWrapper(entry))
@@ -88,12 +92,16 @@ func (c *clientWrapper) Stream(ctx context.Context, req client.Request, opts ...
 		slotChain := sentinel.GlobalSlotChain()
 		slotChain.AddRuleCheckSlot(outlier.DefaultSlot)
 		slotChain.AddStatSlot(outlier.DefaultMetricStatSlot)
-		entry, _ := sentinel.Entry(
+		entry, blockErr := sentinel.Entry(
 			req.Service(),
 			sentinel.WithResourceType(base.ResTypeRPC),
 			sentinel.WithTrafficType(base.Outbound),
 			sentinel.WithSlotChain(slotChain),
 		)
+		if blockErr != nil {
+			// blocked by another rule of the chain: there is no entry to exit
+			return nil, blockErr
+		}
 		defer entry.Exit()
 		opts = append(opts, WithSelectOption(entry))
 		opts = append(opts, WithCallWrapper(entry))
